@@ -1143,7 +1143,7 @@ def solve(objfun, x0, h=None, lh=None, prox_uh=None, argsf=(), argsh=(), argspro
         
         if params("restarts.increase_npt"):
             npt += params("restarts.increase_npt_amt")
-            npt = min(npt, params("restarts.max_npt"))
+            npt = min(npt, params("restarts.max_npt"), (n + 1) * (n + 2) // 2)  # (a run cannot be initialised with more points than that)
 
         if do_logging:
             module_logger.info("Restarting from finish point (f = %g) after %g function evals; using rhobeg = %g and rhoend = %g"
